@@ -524,6 +524,27 @@ def oracle_accept_order(P):
     return orc
 
 
+def oracle_release(P):
+    """C13 "abandoned connect or accept calls release whatever they reserved": when the application drops a call
+    that had already been handed its connection (the table entry turns dead: nobody holds the stream any more), the
+    request that frees the entry must be on its way in the same step - otherwise the entry, and its share of the
+    connection limit, stays for ever."""
+    def orc(case, impl):
+        tr = SockTrace(case, impl)
+        hits = []
+        for st in tr.steps:
+            f, b = st["fp"], st["fp_before"]
+            if not f or b is None or st["op"] not in ("dropacc", "dropconn"):
+                continue
+            newly_dead = [x for x in f["streams"] if x.endswith("/dead") and x not in b["streams"] and x[:-5] in b["streams"]]
+            if newly_dead and int(f.get("ctl_q", 0)) <= int(b.get("ctl_q", 0)):
+                hits.append({"sig": {"oracle": "sock_release", "what": "abandoned_call_leaks_its_table_entry"},
+                             "text": f"`{st['line']}`: the call had been handed connection {newly_dead[0][:-5]}; dropping it left the table entry in place and queued no request to remove it (control queue {b.get('ctl_q')} -> {f.get('ctl_q')}): the entry and its share of the connection limit are never released"})
+                break
+        return hits
+    return orc
+
+
 def oracle_calls(P):
     """C10/C13: the accept service survives whatever arrives: on a live socket (the harness never shuts it down) a
     pending accept() is never failed - it waits or returns a connection."""
@@ -583,7 +604,7 @@ def directed_race(P):
 def register(P):
     P.GENERATORS["sock"] = gen_sock(P)
     P.STATS["sock"] = stats_sock
-    for o in ("sock_tables", "accept_order", "sock_calls"):
+    for o in ("sock_tables", "accept_order", "sock_calls", "sock_release"):
         P.ORACLE_COMPONENT[o] = "sock"
     common_trust = ["model of socket.rs Dispatcher (Model/Sock.lean) - validated by the lockstep differential: branch taken, datagrams sent (SYN, RESET), results of every connect()/accept() call, and the tables after every operation (streams, connecting slots, SYN backlog, acceptor queue, next connection id)",
                     "the world around the dispatcher in lockstep runs (tokio mpsc/oneshot semantics: FIFO, bounded acceptor channel with FIFO permit hand-over, a dropped receiver makes send fail) is modelled in the Lean driver and validated by the same differential, not proved",
@@ -601,7 +622,7 @@ def register(P):
     P.PROPS["C13"] = {
         "lean": ["UtpVerif.Props.C13"],
         "components": ["sock"],
-        "oracles": {"sock_tables": oracle_tables(P), "accept_order": oracle_accept_order(P), "sock_calls": oracle_calls(P)},
+        "oracles": {"sock_tables": oracle_tables(P), "accept_order": oracle_accept_order(P), "sock_calls": oracle_calls(P), "sock_release": oracle_release(P)},
         "directed": {"race": directed_race(P)},
         "rule": rule, "assumptions": common_assume, "trusted": common_trust,
     }
